@@ -519,6 +519,15 @@ func (m *FeeMonitor) Credit(addr string, c sdk.Coins)         { m.credit(addr, c
 func (m *FeeMonitor) Debit(h *Hist, addr string, c sdk.Coins) { m.debit(h, addr, c) }
 func (m *FeeMonitor) RegisterSigning(sid uint64, f sdk.Coins) { m.feeOf[sid] = f }
 func (m *FeeMonitor) Balance(addr string) sdk.Coins           { return m.bal[addr] }
+
+// Track adds an account to the ledger, starting from what it holds now.
+func (m *FeeMonitor) Track(h *Hist, a sdk.AccAddress) {
+	if _, ok := m.bal[a.String()]; ok {
+		return
+	}
+	m.addrs = append(m.addrs, a)
+	m.bal[a.String()] = h.W.Bal(a)
+}
 func (m *FeeMonitor) debit(h *Hist, addr string, c sdk.Coins) {
 	nb, neg := m.bal[addr].SafeSub(c...)
 	if neg {
